@@ -39,21 +39,34 @@ open Bufr.PathLang
 def clampIdx (n : Nat) (lower upper : Int) (x : Int) : Int :=
   if x < 0 then max (x + n) lower else min x upper
 
-/-- `range(*slice(a, b, c).indices(n))` for `c ≠ 0` (`[]` for `c = 0`, where Python raises `ValueError`) -/
-def pySliceRange (a b c : Option Int) (n : Nat) : List Nat :=
-  let step := c.getD 1
+/-- a bound of a slice with a positive step: absent = `dflt`, else clamped into `[0, n]` -/
+def boundUp (n : Nat) (dflt : Int) : Option Int → Int
+  | none => dflt
+  | some x => clampIdx n 0 n x
+
+/-- a bound of a slice with a negative step: absent = `dflt`, else clamped into `[-1, n-1]` -/
+def boundDown (n : Nat) (dflt : Int) : Option Int → Int
+  | none => dflt
+  | some x => clampIdx n (-1) ((n : Int) - 1) x
+
+/-- `range(*slice(a, b, step).indices(n))` for an explicit `step ≠ 0` (`[]` for `step = 0`) -/
+def pySliceStep (a b : Option Int) (step : Int) (n : Nat) : List Nat :=
   if step = 0 then []
   else if 0 < step then
-    let lo := (match a with | none => (0 : Int) | some a => clampIdx n 0 n a).toNat
-    let hi := (match b with | none => (n : Int) | some b => clampIdx n 0 n b).toNat
+    let lo := (boundUp n 0 a).toNat
+    let hi := (boundUp n n b).toNat
     let s := step.toNat
     (List.range ((hi - lo + s - 1) / s)).map (fun j => lo + j * s)
   else
     let s := (-step).toNat
     -- start and stop lie in [-1, n-1]; shifted by one into [0, n]
-    let st := ((match a with | none => (n : Int) - 1 | some a => clampIdx n (-1) ((n : Int) - 1) a) + 1).toNat
-    let sp := ((match b with | none => (-1 : Int) | some b => clampIdx n (-1) ((n : Int) - 1) b) + 1).toNat
+    let st := (boundDown n ((n : Int) - 1) a + 1).toNat
+    let sp := (boundDown n (-1) b + 1).toNat
     (List.range ((st - sp + s - 1) / s)).map (fun j => st - 1 - j * s)
+
+/-- `range(*slice(a, b, c).indices(n))` for `c ≠ 0` (`[]` for `c = 0`, where Python raises `ValueError`);
+    an absent step is 1 -/
+def pySliceRange (a b c : Option Int) (n : Nat) : List Nat := pySliceStep a b (c.getD 1) n
 
 /-- positions selected by a path slice in a list of `n` entries, in the order in which Python lists them:
     an int `k ≥ 0` selects entry `k` if there is one, a slice object is `list(range(n))[a:b:c]` -/
@@ -86,8 +99,8 @@ def ddChars : DDesc → List Char
 
 /-- `str(node.descriptor)`; `none` = a value node whose index is outside the label list (cannot come out of
     the wiring pass) — it matches no id -/
-def nodeLabel (o : SubsetOut) : Node → Option (List Char)
-  | .value _ i _ => (o.descs[i]?).map ddChars
+def nodeLabel (ds : List DDesc) : Node → Option (List Char)
+  | .value _ i _ => (ds[i]?).map ddChars
   | .noval id => some (padNatC id 6)
   | .seq id _ => some (padNatC id 6)
   | .fixedRep id _ _ => some (padNatC id 6)
@@ -106,8 +119,8 @@ def composite : Node → Bool
   | _ => true
 
 /-- `node_matches` -/
-def nodeMatch (o : SubsetOut) (c : Comp) (n : Node) : Match :=
-  if nodeLabel o n = some c.id then .hit
+def nodeMatch (ds : List DDesc) (c : Comp) (n : Node) : Match :=
+  if nodeLabel ds n = some c.id then .hit
   else if c.sep = '>' then (if composite n then .keep else .no)
   else .no
 
@@ -116,9 +129,13 @@ def enumFrom {α : Type} : Nat → List α → List (Nat × α)
   | _, [] => []
   | i, x :: xs => (i, x) :: enumFrom (i + 1) xs
 
-/-- `sorted(filtered_nodes, key=lambda x: x[0])` -/
-def sortByPos {α : Type} (l : List (Nat × α)) : List (Nat × α) :=
-  l.mergeSort (fun a b => decide (a.1 ≤ b.1))
+/-- insertion into a list sorted by position (before the first entry that is not smaller) -/
+def insertPos {α : Type} (p : Nat × α) : List (Nat × α) → List (Nat × α)
+  | [] => [p]
+  | q :: qs => if p.1 ≤ q.1 then p :: q :: qs else q :: insertPos p qs
+
+/-- `sorted(filtered_nodes, key=lambda x: x[0])` (stable; the positions are distinct anyway) -/
+def sortByPos {α : Type} (l : List (Nat × α)) : List (Nat × α) := l.foldr insertPos []
 
 /-- `nodes_matched[slice]` for a slice object -/
 def applySlice {α : Type} (s : Slice) (l : List α) : List α :=
@@ -168,8 +185,8 @@ def concatConts : List Cont → Cont
       | .ok hs' => .ok (hs ++ hs')
 
 /-- filter the (node, continuation) pairs and run the continuations of the selected ones -/
-def selectRun (o : SubsetOut) (c : Comp) (pairs : List (Node × Cont)) : Cont :=
-  match filterEnt c (fun p => nodeMatch o c p.1) pairs with
+def selectRun (ds : List DDesc) (c : Comp) (pairs : List (Node × Cont)) : Cont :=
+  match filterEnt c (fun p => nodeMatch ds c p.1) pairs with
   | .error e => .error e
   | .ok sel => concatConts (sel.map (·.2))
 
@@ -179,53 +196,53 @@ def blocks {α : Type} (n : Nat) : Nat → List α → List (List α)
   | f + 1, l => if l.isEmpty then [] else l.take n :: blocks n f (l.drop n)
 
 /-- the loop over the repetitions: one list per repetition that has a result -/
-def envelope (o : SubsetOut) (c : Comp) : List (List (Node × Cont)) → CM (List Hit)
+def envelope (ds : List DDesc) (c : Comp) : List (List (Node × Cont)) → CM (List Hit)
   | [] => .ok []
-  | b :: bs => match selectRun o c b with
+  | b :: bs => match selectRun ds c b with
     | .error e => .error e
-    | .ok hs => match envelope o c bs with
+    | .ok hs => match envelope ds c bs with
       | .error e => .error e
       | .ok rest => .ok (if hs.isEmpty then rest else .list hs :: rest)
 
 /-- `filter_for_child_sub_nodes`; `conts` = the continuations of `node.members`, one per member -/
-def childStep (o : SubsetOut) (c : Comp) (node : Node) (conts : List Cont) : Cont :=
+def childStep (ds : List DDesc) (c : Comp) (node : Node) (conts : List Cont) : Cont :=
   match node with
   | .value _ _ _ => .error .query                     -- 'has no child nodes'
   | .noval _ => .error .query
-  | .seq _ ms => selectRun o c (ms.zip conts)
+  | .seq _ ms => selectRun ds c (ms.zip conts)
   | .fixedRep _ n ms | .delayedRep _ n _ ms =>
     if ms.isEmpty then .ok []
     else if n = 0 then .error .other                  -- `range(0, len, 0)`: ValueError
-    else match envelope o c (blocks n ms.length (ms.zip conts)) with
+    else match envelope ds c (blocks n ms.length (ms.zip conts)) with
       | .error e => .error e
       | .ok env => .ok (if env.isEmpty then [] else [.list env])
 
 /-- `filter_for_attribute_sub_nodes`; `fcont` = continuation of the factor, `aconts` = of the attributes -/
-def attrStep (o : SubsetOut) (c : Comp) (node : Node) (fcont : Cont) (aconts : List Cont) : Cont :=
+def attrStep (ds : List DDesc) (c : Comp) (node : Node) (fcont : Cont) (aconts : List Cont) : Cont :=
   match node with
-  | .delayedRep _ _ f _ => selectRun o c [(f, fcont)]
-  | .value _ _ attrs => if attrs.isEmpty then .error .query else selectRun o c (attrs.zip aconts)
+  | .delayedRep _ _ f _ => selectRun ds c [(f, fcont)]
+  | .value _ _ attrs => if attrs.isEmpty then .error .query else selectRun ds c (attrs.zip aconts)
   | _ => .error .query                                -- 'has no attribute nodes'
 
 /-- `filter_for_descendant_sub_nodes` (after fix F16b: factor / attributes first, then members) -/
-def descStep (o : SubsetOut) (c : Comp) (node : Node) (mconts : List Cont) (fcont : Cont) (aconts : List Cont) : Cont :=
+def descStep (ds : List DDesc) (c : Comp) (node : Node) (mconts : List Cont) (fcont : Cont) (aconts : List Cont) : Cont :=
   match node with
   | .noval _ => .error .query                         -- 'has no descendant nodes'
-  | .value _ _ attrs => if attrs.isEmpty then .error .query else attrStep o c node fcont aconts
-  | .seq _ _ => childStep o c node mconts
-  | .fixedRep _ _ _ => childStep o c node mconts
+  | .value _ _ attrs => if attrs.isEmpty then .error .query else attrStep ds c node fcont aconts
+  | .seq _ _ => childStep ds c node mconts
+  | .fixedRep _ _ _ => childStep ds c node mconts
   | .delayedRep _ _ _ _ =>
-    match attrStep o c node fcont aconts with
+    match attrStep ds c node fcont aconts with
     | .error e => .error e
-    | .ok hs => match childStep o c node mconts with
+    | .ok hs => match childStep ds c node mconts with
       | .error e => .error e
       | .ok hs' => .ok (hs ++ hs')
 
 /-- `filter_for_sub_nodes`: dispatch on the separator -/
-def stepNode (o : SubsetOut) (c : Comp) (node : Node) (mconts : List Cont) (fcont : Cont) (aconts : List Cont) : Cont :=
-  if c.sep = '/' then childStep o c node mconts
-  else if c.sep = '.' then attrStep o c node fcont aconts
-  else descStep o c node mconts fcont aconts
+def stepNode (ds : List DDesc) (c : Comp) (node : Node) (mconts : List Cont) (fcont : Cont) (aconts : List Cont) : Cont :=
+  if c.sep = '/' then childStep ds c node mconts
+  else if c.sep = '.' then attrStep ds c node fcont aconts
+  else descStep ds c node mconts fcont aconts
 
 /-- what happens to ONE selected sub-node: `descend_and_proceed([n])` when the separator is `>`,
     `proceed_next_path_component([n])` otherwise.  `again` = `filter_for_descendant_sub_nodes(n, comps)`,
@@ -238,35 +255,35 @@ def contOf (m : Match) (n : Node) (rest : List Comp) (again next : Unit → Cont
 
 mutual
 /-- `filter_for_sub_nodes(node, [c] + rest)` -/
-def subNodes (o : SubsetOut) : Node → Comp → List Comp → Cont
+def subNodes (ds : List DDesc) : Node → Comp → List Comp → Cont
   | .value k i attrs, c, rest =>
-    stepNode o c (.value k i attrs) [] (.ok []) (contList o attrs c rest)
-  | .noval id, c, _ => stepNode o c (.noval id) [] (.ok []) []
-  | .seq id ms, c, rest => stepNode o c (.seq id ms) (contList o ms c rest) (.ok []) []
-  | .fixedRep id n ms, c, rest => stepNode o c (.fixedRep id n ms) (contList o ms c rest) (.ok []) []
+    stepNode ds c (.value k i attrs) [] (.ok []) (contList ds attrs c rest)
+  | .noval id, c, _ => stepNode ds c (.noval id) [] (.ok []) []
+  | .seq id ms, c, rest => stepNode ds c (.seq id ms) (contList ds ms c rest) (.ok []) []
+  | .fixedRep id n ms, c, rest => stepNode ds c (.fixedRep id n ms) (contList ds ms c rest) (.ok []) []
   | .delayedRep id n f ms, c, rest =>
-    stepNode o c (.delayedRep id n f ms) (contList o ms c rest)
-      (contOf (nodeMatch o c f) f rest (fun _ => subNodes o f c rest)
+    stepNode ds c (.delayedRep id n f ms) (contList ds ms c rest)
+      (contOf (nodeMatch ds c f) f rest (fun _ => subNodes ds f c rest)
         (fun _ => match rest with
           | [] => .ok []
-          | c' :: rest' => subNodes o f c' rest')) []
+          | c' :: rest' => subNodes ds f c' rest')) []
 
 /-- the continuation of every node of a list with respect to component `c` -/
-def contList (o : SubsetOut) : List Node → Comp → List Comp → List Cont
+def contList (ds : List DDesc) : List Node → Comp → List Comp → List Cont
   | [], _, _ => []
   | n :: ns, c, rest =>
-    contOf (nodeMatch o c n) n rest (fun _ => subNodes o n c rest)
+    contOf (nodeMatch ds c n) n rest (fun _ => subNodes ds n c rest)
       (fun _ => match rest with
         | [] => .ok []
-        | c' :: rest' => subNodes o n c' rest') :: contList o ns c rest
+        | c' :: rest' => subNodes ds n c' rest') :: contList ds ns c rest
 end
 
 /-- `process_one_subset`: the virtual root is a sequence node whose id (`'TEMPLATE'`) matches nothing -/
-def processOne (o : SubsetOut) (tree : List Node) : List Comp → Cont
+def processOne (ds : List DDesc) (tree : List Node) : List Comp → Cont
   | [] => .error .other                               -- `path_components[0]`: IndexError
   | c :: rest =>
     if c.sep = '.' then .error .query                 -- the root has neither attributes nor factor
-    else selectRun o c (tree.zip (contList o tree c rest))
+    else selectRun ds c (tree.zip (contList ds tree c rest))
 
 /-! ### values -/
 
@@ -342,7 +359,7 @@ def uncompressedSubset (m : QMsg) (comps : List Comp) (i : Nat) : CM (Nat × Lis
     match m.trees[i]? with
     | none => .error .other
     | some t =>
-      match processOne o t comps with
+      match processOne o.descs t comps with
       | .error e => .error e
       | .ok hits => match valuesOf o.vals hits with
         | .error e => .error e
@@ -372,7 +389,7 @@ def query (m : QMsg) (p : Path) : CM QResult :=
     if m.compressed then
       match m.trees[0]?, m.outs[0]? with
       | some t, some o0 =>
-        (match processOne o0 t p.comps with
+        (match processOne o0.descs t p.comps with
          | .error e => .error e
          | .ok hits => match mapIdx (compressedSubset m hits) idxs with
            | .error e => .error e
@@ -389,6 +406,12 @@ def QResult.restrict (r : QResult) (idxs : List Nat) : CM QResult :=
   match mapIdx (fun i => match r.get? i with | some vs => .ok (i, vs) | none => .error .other) idxs with
   | .error e => .error e
   | .ok rs => .ok ⟨rs⟩
+
+/-- the result of the unselected query cut down by an `@` selector: "selecting the subsets afterwards" -/
+def QResult.select (r : QResult) (sel : Option Slice) (n : Nat) : CM QResult :=
+  match Query.subsetIndices sel n with
+  | .error e => .error e
+  | .ok idxs => r.restrict idxs
 
 /-- the message a decoder hands to `query`: the trees of `wireAll` -/
 def mkMsg (t : List Desc) (compressed : Bool) (outs : List SubsetOut) : CM QMsg :=
